@@ -142,3 +142,13 @@ Proof.
   split; [split; [reflexivity|]; cbn; repeat split; try lia; intros [H _]; discriminate|].
   split; vm_compute; reflexivity.
 Qed.
+
+(* "é\n" followed by the invalid byte 0xFF and more garbage: the position of the invalid byte *)
+Example position_prefix_nonvacuous :
+  exists ctx, position ascii_graphic (bytes [([195; 169], 233); ([10], 10)] ++ [255; 128; 13]) 3 = Done (2, 1, ctx).
+Proof.
+  destruct (position_prefix_proof ascii_graphic [([195; 169], 233); ([10], 10)] [255; 128; 13]) as (ctx & E).
+  - repeat constructor.
+  - intros H. vm_compute in H. discriminate.
+  - exists ctx. exact E.
+Qed.
